@@ -68,6 +68,10 @@ def cases(tier, rng):
             out.append(Case([{"op": "names.sort", "seq": list(perm)}], key="sort-%s" % (perm,),
                             nontrivial=k >= 2))
             n += 1
+    # numbers of two and three digits, where the order of the names (ex10 < ex2) is not the order of the numbers
+    for k in range(2, 5):
+        for perm in itertools.permutations([1, 2, 9, 10, 11, 100], k):
+            out.append(Case([{"op": "names.sort", "seq": list(perm)}], key="sort-%s" % (perm,)))
     # discovery through GameData::from_existing, directories created in shuffled order
     nd = 40 if tier == "quick" else 400
     for i in range(nd):
